@@ -314,7 +314,7 @@ theorem collect_order_independent (a b : List Tok) (h : SameUpToFamilyOrder a b)
       · rw [collect_files' a ra ha, collect_files' b rb hb, filterMap_fileName_filter, h.2.2,
           ← filterMap_fileName_filter]
 
-theorem parseArgs_order_independent (a b : List Str) (h : SameUpToFamilyOrder (a.map lex) (b.map lex)) :
+theorem parseArgs_order_independent (a b : List Str) (h : SameUpToFamilyOrder (lexAll a) (lexAll b)) :
     parseArgs a = parseArgs b :=
   collect_order_independent _ _ h
 
@@ -344,13 +344,63 @@ theorem swap_adjacent_toks (l₁ l₂ : List Tok) (t₁ t₂ : Tok) (h : sameFam
     (collect {} (l₁ ++ t₁ :: t₂ :: l₂)).map assemble = (collect {} (l₁ ++ t₂ :: t₁ :: l₂)).map assemble :=
   collect_order_independent _ _ (same_of_swap l₁ l₂ t₁ t₂ h)
 
+/-- for command lines without a bare optional-valued option the tokens are the arguments, one by one -/
+def bareOptValue (s : Str) : Bool :=
+  match lex s with
+  | .opt o none => decide (o.kind = .optValue)
+  | _ => false
+
+def NoBareOptValue (l : List Str) : Prop := ∀ s ∈ l, bareOptValue s = false
+
+theorem lexAll_eq_map (l : List Str) (h : NoBareOptValue l) : lexAll l = l.map lex := by
+  induction l with
+  | nil => rfl
+  | cons s rest ih =>
+    have hrest : NoBareOptValue rest := fun x hx => h x (List.mem_cons_of_mem _ hx)
+    cases rest with
+    | nil => rfl
+    | cons v rest' =>
+      have ih' := ih hrest
+      unfold lexAll
+      split
+      · rename_i o heq
+        have hk : o.kind ≠ .optValue := by
+          have := h s (List.mem_cons_self)
+          unfold bareOptValue at this
+          rw [heq] at this
+          simpa using this
+        simp only [hk, false_and, if_false, List.map_cons]
+        rw [ih', List.map_cons, heq]
+      · rename_i t hne
+        rw [ih']
+        rfl
+
 /-- 4a. swapping two adjacent arguments of different families (not both positionals, not both occurrences of the
-same option) anywhere on the command line does not change what `parseArgs` answers -/
-theorem swap_adjacent (l₁ l₂ : List Str) (s₁ s₂ : Str) (h : sameFamily (lex s₁) (lex s₂) = false) :
+same option) anywhere on the command line does not change what `parseArgs` answers — provided no BARE optional-valued
+option (`--merge`, `--group-by`, `--combine` without `=`) occurs: clap gives such an option the next argument as value -/
+theorem swap_adjacent (l₁ l₂ : List Str) (s₁ s₂ : Str) (h : sameFamily (lex s₁) (lex s₂) = false)
+    (hb : NoBareOptValue (l₁ ++ s₁ :: s₂ :: l₂)) :
     parseArgs (l₁ ++ s₁ :: s₂ :: l₂) = parseArgs (l₁ ++ s₂ :: s₁ :: l₂) := by
+  have hb' : NoBareOptValue (l₁ ++ s₂ :: s₁ :: l₂) := by
+    intro x hx
+    apply hb x
+    simp only [List.mem_append, List.mem_cons] at hx ⊢
+    rcases hx with h1 | h1 | h1 | h1
+    · exact Or.inl h1
+    · exact Or.inr (Or.inr (Or.inl h1))
+    · exact Or.inr (Or.inl h1)
+    · exact Or.inr (Or.inr (Or.inr h1))
   apply parseArgs_order_independent
+  rw [lexAll_eq_map _ hb, lexAll_eq_map _ hb']
   simp only [List.map_append, List.map_cons]
   exact same_of_swap _ _ _ _ h
+
+/-- the exception: a bare `--merge` takes the argument after it as its value -/
+theorem bare_merge_takes_next :
+    lexAll ["--merge".toList, "f.json".toList] = [.opt .group (some "f.json".toList)] ∧
+    lexAll ["f.json".toList, "--merge".toList] = [.file "f.json".toList, .opt .group none] ∧
+    lexAll ["--merge".toList, "--unique".toList] = [.opt .group none, .opt .unique none] := by
+  decide
 
 /-! ## the exception is real; non-vacuity -/
 
@@ -401,7 +451,7 @@ def exB : List Str :=
    "in2.json".toList, "--order-by=.a".toList, "--select=.b=B".toList]
 
 /-- the hypothesis of the main theorem holds for the pair -/
-theorem exAB_same : SameUpToFamilyOrder (exA.map lex) (exB.map lex) := by
+theorem exAB_same : SameUpToFamilyOrder (lexAll exA) (lexAll exB) := by
   refine ⟨by decide, fun o => ?_, by decide⟩
   cases o <;> decide
 
@@ -425,7 +475,7 @@ def exC : List Str :=
 theorem exC_differs : (parseArgs exC).map view ≠ (parseArgs exA).map view := by
   decide
 
-theorem exAC_not_same : ¬ SameUpToFamilyOrder (exA.map lex) (exC.map lex) := by
+theorem exAC_not_same : ¬ SameUpToFamilyOrder (lexAll exA) (lexAll exC) := by
   intro h
   exact absurd (h.2.1 .select) (by decide)
 
@@ -439,6 +489,8 @@ example : (∀ o, [Tok.other].filter (isOpt o) = ([] : List Tok).filter (isOpt o
 example : parseArgs ["--unique".toList, "--skip=1".toList, "in1.json".toList, "--take=2".toList]
     = parseArgs ["--unique".toList, "in1.json".toList, "--skip=1".toList, "--take=2".toList] :=
   swap_adjacent ["--unique".toList] ["--take=2".toList] "--skip=1".toList "in1.json".toList (by decide)
+    (by intro s hs; simp only [List.cons_append, List.nil_append, List.mem_cons, List.not_mem_nil, or_false] at hs
+        rcases hs with rfl | rfl | rfl | rfl <;> decide)
 
 /-- rejection is order independent too: an invalid number is rejected wherever it stands -/
 example : (parseArgs ["--skip=x".toList, "--unique".toList]).isNone = true
